@@ -80,7 +80,7 @@ pub fn check_input(ctx: &mut Ctx, fam: &Family<'_>, rule: usize, input: &str) ->
 pub fn run(world: &World, ctx: &mut Ctx) -> Option<Value> {
     ctx.ev.rule = RULE.to_string();
     // (i) determinism: digests written by separate verif_gen processes
-    let dir = std::path::Path::new(crate::common::VERIF_ROOT).join("work");
+    let dir = crate::common::work_dir();
     let mut digests: Vec<Value> = vec![];
     for f in ["tokens_a.json", "tokens_b.json", "tokens_c.json"] {
         if let Some(v) = std::fs::read_to_string(dir.join(f)).ok().and_then(|t| serde_json::from_str::<Value>(&t).ok()) {
